@@ -153,6 +153,7 @@ static void body(int argc, char** argv) {
     g_thorough = argc > 2 && std::string(argv[2]) == "thorough";
     Rng rng(seed_from_env()); g_rng = &rng;
     const bool simd = argc > 2 && std::string(argv[2]) == "simd";      // SIMD builds: the element types that have intrinsic specialisations
+    if (argc > 2 && std::string(argv[2]) == "simdd") { drive<double>(); return; }   // AVX builds: the double specialisations (__m256d) only
     drive<float>(); drive<int>(); if (!simd) { drive<double>(); drive<unsigned int>(); }
     if (g_thorough) { drive<short>(); drive<unsigned char>(); }
 }
